@@ -161,7 +161,11 @@ def check_pipeline(case, out):
                 return close(a, b, rtol=1e-9, atol=1e-300)
             # standard deviations: compare variances; a variance carries an absolute rounding
             # error of order eps * (magnitude of the averaged quantity)^2
-            return close(a * a, b * b, rtol=1e-8, atol=1e-12 * scale * scale)
+            # a one-pass weighted variance loses digits in proportion to the spread of the weights (the same rule as in
+            # part (a)): 1e-8 up to a ratio of 1e6, 1e-6 beyond
+            pos = [x for x in drawn if x > 1e-290]
+            wide = bool(pos) and max(pos) / min(pos) > 1e6
+            return close(a * a, b * b, rtol=1e-6 if wide else 1e-8, atol=1e-12 * scale * scale)
         with np.errstate(all='ignore'):
             nominal = Rs[0].m.model()
         scales = {'temp_profile_std': float(np.max(Rs[0].m.temperatureProfile)) * 2, 'active_mix_profile_std': 1.0,
